@@ -16,6 +16,17 @@ VARIANTS = ("ref", "trc", "sys")
 _COMPILED = {}  # (name, variant) -> (filename, code); filled in the parent
 
 
+def forget_private(prog_name):
+    """Remove the files of a generated program prepared by this process."""
+    for variant in VARIANTS:
+        ent = _COMPILED.get((prog_name, variant))
+        if ent and ent[0].endswith(f"_{os.getpid()}.py"):
+            try:
+                os.unlink(ent[0])
+            except OSError:
+                pass
+
+
 class HarnessError(Exception):
     """The simulator itself is wrong (model != reference twin, etc.)."""
 
@@ -31,15 +42,19 @@ def module_name(prog_name, variant):
     return f"act_{prog_name}_{variant}"
 
 
-def prepare_program(program, prog_name):
-    """Parent side: emit and compile the three twins (no exec)."""
+def prepare_program(program, prog_name, private=False):
+    """Emit and compile the three twins (no exec).  Catalogue programs are prepared once in
+    the parent; a generated program is prepared in the run child, under file names of its
+    own (private=True): the same scenario may be running in several children at once
+    (replay runs it twice, the minimiser runs many variants) and each removes its files."""
     d = scratch_dir()
     for variant in VARIANTS:
         key = (prog_name, variant)
         if key in _COMPILED:
             continue
         src = ir.emit_module(program, traced=(variant == "trc"))
-        fname = os.path.join(d, module_name(prog_name, variant) + ".py")
+        stem = module_name(prog_name, variant) + (f"_{os.getpid()}" if private else "")
+        fname = os.path.join(d, stem + ".py")
         with open(fname, "w") as f:
             f.write(src)
         _COMPILED[key] = (fname, compile(src, fname, "exec"))
@@ -50,7 +65,7 @@ def load_module(prog_name, variant, program=None):
     if key not in _COMPILED:
         if program is None:
             raise HarnessError(f"program {prog_name} not prepared")
-        prepare_program(program, prog_name)
+        prepare_program(program, prog_name, private=True)
     fname, code = _COMPILED[key]
     name = module_name(prog_name, variant)
     mod = types.ModuleType(name)
